@@ -1,6 +1,6 @@
 CONSTANTS
   MaxDepth = 3
-  NDims = 12
+  NDims = 15
 INIT MInit
 NEXT MNext
 CONSTRAINT Depth
